@@ -22,7 +22,7 @@ ASSUMPTIONS = ['interleavings at the granularity of synchronisation, queue and s
 
 N_EXAMPLES = {'quick': 800, 'thorough': 12000}
 KEYS = [['read', 'm:value'], ['read', 'm:value'], ['read', 'm:_p'], ['change', 'm:target'], ['do', 'm:go'], ['foo', 'bar'], ['read', 'm:value'],
-        ['describe', '.'], ['describe', None]]     # the peer answers 'describe' at once with 'describing . {...}'
+        ['describe', '.'], ['describe', None], ['read', 'm:go']]      # (m:go is a command: the node will answer error_read)     # the peer answers 'describe' at once with 'describing . {...}'
 DESCRIPTION = {'modules': {'m': {'accessibles': {
     'value': {'datainfo': {'type': 'double'}, 'readonly': True, 'description': 'v'},
     'target': {'datainfo': {'type': 'double'}, 'readonly': False, 'description': 't'},
